@@ -1,3 +1,4 @@
+import Dbg.Model.Serde
 import Dbg.Driver.C03
 /-! C09: graph re-compression with node censoring; C18: node k-mer iterator; C20: exports. -/
 namespace Drv.C09
@@ -209,9 +210,26 @@ def handle (args : List String) (impl : String) : R Ans :=
     -- the model compares the two texts only (flags are the harness's own checks)
     let implTexts := "|".intercalate ((impl.splitOn "|").take 5)
     pure { model := if implTexts == model then impl else model, verdict }
-  | "persist" :: _ => do
-    -- serde round trips are outside the model: the harness reports `roundtrip=ok` or the first difference
-    pure { model := impl, verdict := if impl == "roundtrip=ok" then "ok" else s!"FAIL:serde-round-trip({impl})" }
+  | "persist" :: rest => do
+    -- the text the serializer writes is modelled (`Serde.*`); reading it back is the harness's observation (`roundtrip=ok`)
+    let txt : Option (List Char) ← match rest with
+      | ["kmer", ty, raw] => do
+        match Kmer.Cfg.ofName ty with
+        | some c => pure (some (Serde.kmer c (BitVec.ofNat c.w (← Drv.hex raw))))
+        | none => throw "bad-type"
+      | ["dna", ds] => do pure ((DnaStr.fromBytes ((← Drv.digits ds).map (·.val))).map Serde.dna)
+      | ["exts", h] => do pure (some (Serde.exts ⟨← Drv.hex h⟩))
+      | ["lmer", ds] => do pure ((Lmer.fromSlice 3 ((← Drv.digits ds).map (·.val))).map Serde.lmer)
+      | ["graph", k, st, nodes] => do
+        let K ← nat k; let st ← bool st
+        let ns ← parseNodes nodes
+        let g : G (List Nat) := ⟨K, ns, st⟩
+        pure ((Serde.baseOf g).map (Serde.baseGraph fun d => Serde.num (d.headD 0)))
+      | _ => throw "bad-request"
+    let model := match txt with
+      | some t => s!"roundtrip=ok|json={esc (String.ofList t)}"
+      | none => "panic"
+    pure { model, verdict := if impl.startsWith "roundtrip=ok" then "ok" else s!"FAIL:serde-round-trip({impl})" }
   | _ => throw "bad-request"
 
 end Drv.C20
